@@ -20,7 +20,7 @@ import json,sys
 m=json.load(open(sys.argv[1]))
 m["confirmed"]={"suite_with_change":sys.argv[3],"demo_exit_with_change":int(sys.argv[4]),"demo_exit_without_change":int(sys.argv[5]),"demo_output_with_change":sys.argv[6],
  "how":"applied patch.diff in a scratch worktree outside /repo and /verif; ran the full pytest suite and demo.py with PYTHONPATH=<worktree>; reverted; ran demo.py again"}
-m["base_commit"]="4203c9e"
+m["base_commit"]="09f1f73"
 json.dump(m,open(sys.argv[2],"w"),indent=1)
 PY
   echo "CONFIRMED -> /verif/seeded/$ID"
